@@ -293,6 +293,20 @@ func runHistory(h *History, dir string) {
 		op.NMask = ipNet.Mask
 		dur := time.Duration(op.DurMs) * time.Millisecond
 		for try := 0; ; try++ {
+			if op.Kind == "statusban" {
+				// A statusban cannot be retried (the ban of the first
+				// attempt would be in the store): start it where
+				// neither now nor now+dur is near a second boundary.
+				for w := 0; w < 2000; w++ {
+					t := time.Now().UnixNano()
+					f1 := ((t % 1e9) + 1e9) % 1e9
+					f2 := (((t + int64(dur)) % 1e9) + 1e9) % 1e9
+					if f1 > 2e7 && f1 < 8e8 && f2 > 2e7 && f2 < 8e8 {
+						break
+					}
+					time.Sleep(5 * time.Millisecond)
+				}
+			}
 			t0 := time.Now().UnixNano()
 			var err error
 			var st banman.Status
@@ -326,6 +340,12 @@ func runHistory(h *History, dir string) {
 			case "status", "statusban":
 				amb = floorDiv(t0, 1e9) != floorDiv(t1, 1e9) ||
 					floorDiv(t0+int64(dur), 1e9) != floorDiv(t1+int64(dur), 1e9)
+			}
+			if amb && op.Kind == "statusban" {
+				// ambiguous and not repeatable: the history ends
+				// before this operation
+				h.Ops = h.Ops[:i]
+				return
 			}
 			if amb && try < 5 {
 				continue
@@ -372,6 +392,22 @@ func obsTerm(op *Op) string {
 	panic("obs " + op.Obs)
 }
 
+// opNet renders the network an operation addresses. Unless the harness built
+// the *net.IPNet itself (raw 4-byte form), it is the MODEL's ParseIPNet of
+// the address (parsed by net.ParseIP, independent of banman) and mask the
+// caller passed: a wrong banman.ParseIPNet shows up in the histories (model
+// mismatch and monitor), not only in the parse table.
+func opNet(op *Op) string {
+	if op.Raw || op.Parsed == nil {
+		return netTerm(op.IP, op.NMask)
+	}
+	m := "None"
+	if op.Mask != nil {
+		m = c.Some(c.Bytes(op.Mask))
+	}
+	return c.App("pn", c.Bytes(op.Parsed), m)
+}
+
 // caseTerm renders the store trace of a history.
 func caseTerm(h *History) (string, string) {
 	var items []string
@@ -384,14 +420,14 @@ func caseTerm(h *History) (string, string) {
 		var o string
 		switch op.Kind {
 		case "ban":
-			o = c.App("Ban", netTerm(op.IP, op.NMask), c.Z(int64(op.Reason)), c.Z(op.Now), c.Z(op.DurMs*1000000))
+			o = c.App("Ban", opNet(op), c.Z(int64(op.Reason)), c.Z(op.Now), c.Z(op.DurMs*1000000))
 		case "unban":
-			o = c.App("Unban", netTerm(op.IP, op.NMask))
+			o = c.App("Unban", opNet(op))
 		case "status":
-			o = c.App("Status", netTerm(op.IP, op.NMask), c.Z(op.Now))
+			o = c.App("Status", opNet(op), c.Z(op.Now))
 		case "statusban":
 			// sequential reading: the status query, then the ban
-			items = append(items, c.Pair(c.App("Status", netTerm(op.IP, op.NMask), c.Z(op.Now)), obsTerm(op)))
+			items = append(items, c.Pair(c.App("Status", opNet(op), c.Z(op.Now)), obsTerm(op)))
 			sig = append(sig, "c")
 			if op.Obs2 == "" {
 				continue // the store call made no transaction the ban could follow
@@ -400,7 +436,7 @@ func caseTerm(h *History) (string, string) {
 			if op.Obs2 == "err" {
 				ob2 = "OErr"
 			}
-			items = append(items, c.Pair(c.App("Ban", netTerm(op.IP, op.NMask), c.Z(int64(op.Reason)), c.Z(op.Now2), c.Z(op.DurMs*1000000)), ob2))
+			items = append(items, c.Pair(c.App("Ban", opNet(op), c.Z(int64(op.Reason)), c.Z(op.Now2), c.Z(op.DurMs*1000000)), ob2))
 			sig = append(sig, "b")
 			continue
 		case "reopen":
